@@ -83,6 +83,10 @@ def run(rep):
                                'impl': proj(None, corp.impl[ci][oi]), 'model': proj(None, corp.model[ci][oi])}, found_input=False)
         # specification machines on their classes (where C06 is proved)
         sc, bc = matcher.machine_corpus(rep, m, corp.classes, 30 if quick else 200, 12 if quick else 20, rep.seed)
+        if not quick:
+            ec, eb = matcher.exhaustive_machine_corpus(m, corp.classes, 4, rep.seed)
+            sc, bc = sc + ec, bc + eb
+            rep.coverage['exhaustive_machine_histories'] = len(ec) + len(eb)
         from . import impl as I
         for cases, runm, label in ((sc, m.run_seq, 'sequence machine'), (bc, m.run_bag, 'bag machine')):
             io = I.run_cases(cases)
